@@ -1,5 +1,6 @@
 import Ymq.Props.C09
 import Ymq.Props.C07C09
+import Ymq.Props.C09Ext
 #print axioms Ymq.C09.step_gcd
 #print axioms Ymq.C09.reduce64_inv
 #print axioms Ymq.C09.gcd_internal_spec
@@ -14,3 +15,6 @@ import Ymq.Props.C07C09
 #print axioms Ymq.C09.inv_mod_spec
 #print axioms Ymq.C09.zmodn_inv_spec
 #print axioms Ymq.C09.zmodn_gcd_spec
+#print axioms Ymq.C09.reduce64_first_row
+#print axioms Ymq.C09.no_panic_ext_wide
+#print axioms Ymq.C09.inv_mod_total
